@@ -811,7 +811,7 @@ int main(int argc, char** argv)
   spec.rule = "cases = (vector kind, operation, shape, alias partition of the operand tuple, realisation of the aliasing "
     "[same object | shallow clone | ranged views of one base | composed vector sharing only its first component], value set, scalar). "
     "A case is non-trivial iff the flattened length is >= 1; hashed by all enumeration coordinates.";
-  spec.bounds_quick = "kinds: DV<double|float>, DVB<double,2|3>, DVB<float,2>, Tuple<DV,DVB2><double|float>, Power<DV,2|3><double>, Power<DVB2,2><float>, Tuple<Power<DV,2>,DV><double>; "
+  spec.bounds_quick = "kinds: DV<double|float> (Index), DV<float,u32>, DVB<double,2|3>, DVB<float,2>, Tuple<DV,DVB2><double|float>, Power<DV,2|3><double>, Power<DVB2,2><float>, Tuple<Power<DV,2>,DV><double>; "
     "DV length 0..20, DVB blocks 0..7, power sub-size 0..6, 10 tuple shapes; 32 operations; all set partitions of 2/3 operands x 2-4 realisations; "
     "value sets dyadic, dyadic-rotated, dyadic+zeros, spread 2^+-26, rounding, all sign masks for flat length <= 6, all (rank permutation x sign mask) for flat length <= 5 in the min/max operations; 9 scalars; "
     "sparse vectors (SparseVector<double|float>, SparseVectorBlocked<double,2>, <float,3>): size 0..5, all histories over {set(i), sort} up to length size+2";
@@ -832,6 +832,7 @@ int main(int argc, char** argv)
     typedef DenseVectorBlocked<float, Index, 2> DVB2f;
     run_kind<DVd>(c, "DV<double>");
     run_kind<DVf>(c, "DV<float>");
+    run_kind<DenseVector<float, unsigned int>>(c, "DV<float,u32>");
     run_kind<DVB2d>(c, "DVB<double,2>");
     run_kind<DVB3d>(c, "DVB<double,3>");
     run_kind<DVB2f>(c, "DVB<float,2>");
